@@ -617,11 +617,14 @@ func (h *H[T]) execShare(p *shareProgram, sim *simrt.Sim, label string) *shareRe
 	}
 	simrt.Begin(sim)
 	sim.Run(est)
+	if sim.LibPanicked {
+		return res
+	}
 	for ti, t := range roots { // (the library may have started tasks of its own)
 		res.rogue[ti] = t.PanicVal
 	}
 	// (the final inspection calls the library too: it runs as a task as well)
-	if !sim.RaceAborted && sim.Deadlocked == "" {
+	if !sim.RaceAborted && !sim.LibPanicked && sim.Deadlocked == "" {
 		sim.Setup(func() { res.final = snapshotFull(big) })
 	}
 	return res
@@ -679,12 +682,12 @@ func (h *H[T]) C19(rc *runCtx) *Violation {
 		// the concurrent execution first: whatever the library initialises on
 		// first use is then initialised under concurrency
 		conc = h.execShare(p, sim, "conc")
-		if sim.RaceAborted {
+		if sim.RaceAborted || sim.LibPanicked {
 			return nil // reported as a data race by the worker
 		}
 		seqSim.Adopt(sim)
 		seq = h.execShare(p, seqSim, "seq")
-		if seqSim.RaceAborted {
+		if seqSim.RaceAborted || seqSim.LibPanicked {
 			return nil
 		}
 		sim.Adopt(seqSim) // so that the worker sees the goroutines the library left behind
@@ -694,7 +697,7 @@ func (h *H[T]) C19(rc *runCtx) *Violation {
 		}
 	} else {
 		seq = h.execShare(p, seqSim, "seq")
-		if seqSim.RaceAborted {
+		if seqSim.RaceAborted || seqSim.LibPanicked {
 			// the reference execution already produced a data race report (the
 			// race oracle does not depend on the schedule): nothing more to learn
 			return nil
@@ -705,7 +708,7 @@ func (h *H[T]) C19(rc *runCtx) *Violation {
 		}
 		sim.Adopt(seqSim) // goroutines the library started during the reference execution live on
 		conc = h.execShare(p, sim, "conc")
-		if sim.RaceAborted {
+		if sim.RaceAborted || sim.LibPanicked {
 			return nil // reported as a data race by the worker
 		}
 	}
